@@ -360,7 +360,7 @@ def run(c: Campaign, jobs: int) -> None:
 def regress(c: Campaign, rec: dict[str, Any]) -> None:
     case = rec["case"]
     spec = case["spec"]
-    sd = {k: v for k, v in case["schedule"].items() if k in ("style", "d", "R", "hold", "hold_for")}
+    sd = {k: v for k, v in case["schedule"].items() if k in ("style", "d", "R", "hold", "hold_for", "hold_one", "occurrence")}
     if case.get("kind") == "multi":
         multi_case(c, case["multi"][0], case["multi"][1], case["multi"][2], sd)
         return
